@@ -7,7 +7,7 @@ A3 the fixed-location bound excludes exactly what the allocator's range excludes
 from `available` to `matched` on request and are looked up only in `matched`; A5 duplicate-name tests
 dominate the insertion.  Not decided: arithmetic of the first-fit search over all histories."""
 import ast
-from ..core import AnalysisError, norm, walk_no_nested
+from ..core import AnalysisError, norm, cnorm, walk_no_nested
 from .. import pathx as P
 
 SOC = "litex/soc/integration/soc.py"
@@ -310,7 +310,7 @@ def run(ctx):
     for p in pd:
         if p.end == "return" and isinstance(p.end_node.value, ast.Lambda):
             nlam += 1
-            ta = [(norm(t), pol) for t, pol in p.tests_before(len(p.ev)) if "origin & size - 1" in norm(t)]
+            ta = [(cnorm(t), pol) for t, pol in p.tests_before(len(p.ev)) if cnorm("origin & size - 1") in cnorm(t)]
             if not ta:
                 bad = "predicate returned without the alignment test"
             else:
